@@ -133,23 +133,31 @@ func c15Run(c *core.C) {
 		params := c15SafeParams()
 		depth := 1 + r.Intn(4)
 		// first parse: one fact, one rule, one check, written in the documented grammar
-		ft, _ := gen.GFact(r, params)
-		rt, _ := gen.GRule(r, params, depth)
-		ct, _ := gen.GCheck(r, params, depth)
+		ft, wantF := gen.GFact(r, params)
+		rt, wantR := gen.GRule(r, params, depth)
+		ct, wantC := gen.GCheck(r, params, depth)
 		ftext, rtext, ctext := gen.Layout(r, ft), gen.Layout(r, rt), gen.Layout(r, ct)
 		lf, err1 := p.Fact(ftext, libParams(params))
 		lr, err2 := p.Rule(rtext, libParams(params))
 		lc, err3 := p.Check(ctext, libParams(params))
+		var af ast.Pred
+		var ar ast.Rule
+		var ac ast.Check
 		if err1 != nil || err2 != nil || err3 != nil {
-			c.Count("first_parse_failed", 1) // C14's business
-			continue
-		}
-		af, e1 := ast.FromLibPred(lf.Predicate)
-		ar, e2 := ast.FromLibRule(lr)
-		ac, e3 := ast.FromLibCheck(lc)
-		if e1 != nil || e2 != nil || e3 != nil {
-			c.Count("first_parse_unconvertible", 1)
-			continue
+			// the text is in the documented grammar (that the parser refuses it is C14's business):
+			// the content it denotes is entered through the builders instead, and its printed
+			// form must still parse back to it
+			c.Count("first_parse_failed_denotation_used", 1)
+			af, ar, ac = wantF, wantR, wantC
+		} else {
+			var e1, e2, e3 error
+			af, e1 = ast.FromLibPred(lf.Predicate)
+			ar, e2 = ast.FromLibRule(lr)
+			ac, e3 = ast.FromLibCheck(lc)
+			if e1 != nil || e2 != nil || e3 != nil {
+				c.Count("first_parse_unconvertible", 1)
+				continue
+			}
 		}
 		ok := c15PredOK(af) && c15RuleOK(ar)
 		for _, q := range ac.Queries {
